@@ -13,16 +13,18 @@ EXPLANATION = ("ac2poly, ac2rc, poly2ac, poly2rc, rc2poly, rc2ac (through the re
                "autocorrelations; z3 decides the round trips and commuting squares as identities between rational "
                "functions. rc2lar/lar2rc and rc2is/is2rc are executed with tanh/arctanh/sin/arcsin as uninterpreted "
                "functions constrained only by their inverse-pair axioms, pi symbolic: that decides the plumbing (signs, factors 2 and pi/2, "
-               "domain checks) for every argument.")
+               "domain checks) for every argument. lsf2poly is executed on symbolic increasing frequencies in (0, pi) (exp(j w) = cos w + j sin w on "
+               "uninterpreted cos / sin with cos^2 + sin^2 = 1) and compared with the DEFINITION of line spectral frequencies: the sum and "
+               "difference filters of the returned polynomial have exactly the prescribed unit-circle roots (interlaced sets, trivial roots at z = -1 / +1).")
 BOUNDS = {
-    "quick": "order <= 4 real, <= 3 complex for the rational conversions; vector length <= 2 for lar / inverse-sine",
-    "thorough": "order <= 6 real, <= 4 complex; length <= 3 for lar / inverse-sine",
+    "quick": "order <= 4 real, <= 3 complex for the rational conversions; vector length <= 2 for lar / inverse-sine; lsf2poly orders 1..16",
+    "thorough": "order <= 6 real, <= 4 complex; length <= 3 for lar / inverse-sine; lsf2poly orders 1..16",
 }
 ASSUMPTIONS = ["floats modelled as exact reals", "domain: |k_i| < 1, r0 > 0 (or LEVINSON's own positive-definiteness path condition)",
                "tanh, arctanh, sin, arcsin: uninterpreted, with tanh(arctanh y)=y, arctanh(tanh y)=y, sin(arcsin y)=y (|y|<=1), "
                "arcsin(sin y)=y (|y|<=pi/2) instantiated on the applications that occur; pi symbolic in (3.14159265, 3.14159266)"]
-OUTSIDE = ["poly2lsf / lsf2poly: poly2lsf relies on the ORDER in which LAPACK's eigenvalue routine (numpy.roots) returns conjugate pairs "
-           "(rP[1::2]); no documented contract fixes it, so modelling it would be modelling LAPACK - not claimed",
+OUTSIDE = ["poly2lsf (and therefore the round trip poly -> lsf -> poly and 'frequencies strictly increasing'): poly2lsf relies on the ORDER in which LAPACK's eigenvalue routine (numpy.roots) returns conjugate pairs "
+           "(rP[1::2]); no documented contract fixes it, so modelling it would be modelling LAPACK - not claimed; the lsf -> poly direction is decided against the definition",
            "orders above the bounds (property text: up to 16)"]
 BUDGET = {"quick": 900, "thorough": 3400}
 
@@ -223,9 +225,69 @@ def case_is(h, n, direction):
             h.claim_eq("rc2is(is2rc(s))[%d]=s" % i, back[i], s[i])
 
 
+def _pmul(a, b):
+    out = [0] * (len(a) + len(b) - 1)
+    for i, u in enumerate(a):
+        for j, v in enumerate(b):
+            out[i + j] = out[i + j] + u * v
+    return out
+
+
+def case_lsf2poly(h, p):
+    """lsf2poly against the definition of line spectral frequencies: with A_ext = [a, 0], the sum filter
+    A_ext + reversed(A_ext) has exactly the unit-circle roots at the even-indexed frequencies (+ z=-1 for even order)
+    and the difference filter A_ext - reversed(A_ext) those at the odd-indexed ones (+ z=1, and z=-1 for odd order)"""
+    S = sp()
+    w = h.real_vec('w', p)
+    if h.is_sym():
+        ctx().symbolic_pi = True
+        from symx.loader import symbolic_pi
+        from symx import stubs_math
+        from symx.number import as_sym
+        pi = symbolic_pi()
+        cosw = [stubs_math.apply('cos', as_sym(w[i])) for i in range(p)]
+    else:
+        pi = math.pi
+        cosw = [math.cos(w[i]) for i in range(p)]
+    h.assume(w[0] > 0, "0 < w0")
+    for i in range(1, p):
+        h.assume(w[i] > w[i - 1], "increasing")
+    h.assume(w[p - 1] < pi, "w < pi")
+    try:
+        a = S.lsf2poly(w)
+    except ValueError:
+        h.fail("lsf2poly rejected frequencies inside (0, pi)")
+        return
+    if len(a) != p + 1:
+        h.fail("len", "len %d expected %d" % (len(a), p + 1))
+        return
+    h.claim_eq("a0=1", a[0], 1)
+    ssum, sdif = [1], [1]
+    for i in range(p):
+        fac = [1, -2 * cosw[i], 1]
+        if i % 2 == 0:
+            ssum = _pmul(ssum, fac)
+        else:
+            sdif = _pmul(sdif, fac)
+    if p % 2:
+        sdif = _pmul(sdif, [1, 0, -1])
+    else:
+        ssum = _pmul(ssum, [1, 1])
+        sdif = _pmul(sdif, [1, -1])
+    ext = [a[i] for i in range(p + 1)] + [0]
+    for j in range(p + 2):
+        h.claim_eq("sum-filter[%d]" % j, ext[j] + ext[p + 1 - j], ssum[j])
+        h.claim_eq("difference-filter[%d]" % j, ext[j] - ext[p + 1 - j], sdif[j])
+    for j in range(p + 1):
+        h.claim_real("a[%d] real" % j, a[j])
+
+
 def cases(tier, seed):
     q = tier == 'quick'
     out = []
+    for p in range(1, 17):
+        out.append(Case("lsf2poly:definition:p=%d" % p, case_lsf2poly, dict(p=p), timeout=60 if q else 300, max_paths=32,
+                        feas_timeout=5, max_decisions=40))
     for cplx, pmax in ((False, 4 if q else 6), (True, 3 if q else 4)):
         tag = 'cx' if cplx else 're'
         for p in range(1, pmax + 1):
